@@ -231,7 +231,9 @@ namespace detail
 	{
 		GLM_STATIC_ASSERT(std::numeric_limits<genIUType>::is_integer, "'mask' accepts only integer values");
 
-		return Bits >= static_cast<genIUType>(sizeof(genIUType) * 8) ? ~static_cast<genIUType>(0) : (static_cast<genIUType>(1) << Bits) - static_cast<genIUType>(1);
+		// built in the unsigned type: (1 << (width - 1)) - 1 overflows a signed genIUType
+		typedef typename detail::make_unsigned<genIUType>::type genUType;
+		return Bits >= static_cast<genIUType>(sizeof(genIUType) * 8) ? ~static_cast<genIUType>(0) : static_cast<genIUType>((static_cast<genUType>(1) << Bits) - static_cast<genUType>(1));
 	}
 
 #if GLM_COMPILER & GLM_COMPILER_CLANG
@@ -251,8 +253,11 @@ namespace detail
 	{
 		GLM_STATIC_ASSERT(std::numeric_limits<genIType>::is_integer, "'bitfieldRotateRight' accepts only integer values");
 
-		int const BitSize = static_cast<genIType>(sizeof(genIType) * 8);
-		return (In << static_cast<genIType>(Shift)) | (In >> static_cast<genIType>(BitSize - Shift));
+		// shifts are done on the unsigned representation, and the complementary count is reduced modulo the width (Shift == 0)
+		typedef typename detail::make_unsigned<genIType>::type genUType;
+		int const BitSize = static_cast<int>(sizeof(genIType) * 8);
+		genUType const Value = static_cast<genUType>(In);
+		return static_cast<genIType>(static_cast<genUType>(Value << Shift) | static_cast<genUType>(Value >> ((BitSize - Shift) & (BitSize - 1))));
 	}
 
 	template<length_t L, typename T, qualifier Q>
@@ -260,8 +265,10 @@ namespace detail
 	{
 		GLM_STATIC_ASSERT(std::numeric_limits<T>::is_integer, "'bitfieldRotateRight' accepts only integer values");
 
+		typedef typename detail::make_unsigned<T>::type U;
 		int const BitSize = static_cast<int>(sizeof(T) * 8);
-		return (In << static_cast<T>(Shift)) | (In >> static_cast<T>(BitSize - Shift));
+		vec<L, U, Q> const Value(In);
+		return vec<L, T, Q>((Value << static_cast<U>(Shift)) | (Value >> static_cast<U>((BitSize - Shift) & (BitSize - 1))));
 	}
 
 	template<typename genIType>
@@ -269,8 +276,11 @@ namespace detail
 	{
 		GLM_STATIC_ASSERT(std::numeric_limits<genIType>::is_integer, "'bitfieldRotateLeft' accepts only integer values");
 
-		int const BitSize = static_cast<genIType>(sizeof(genIType) * 8);
-		return (In >> static_cast<genIType>(Shift)) | (In << static_cast<genIType>(BitSize - Shift));
+		// shifts are done on the unsigned representation, and the complementary count is reduced modulo the width (Shift == 0)
+		typedef typename detail::make_unsigned<genIType>::type genUType;
+		int const BitSize = static_cast<int>(sizeof(genIType) * 8);
+		genUType const Value = static_cast<genUType>(In);
+		return static_cast<genIType>(static_cast<genUType>(Value >> Shift) | static_cast<genUType>(Value << ((BitSize - Shift) & (BitSize - 1))));
 	}
 
 	template<length_t L, typename T, qualifier Q>
@@ -278,8 +288,10 @@ namespace detail
 	{
 		GLM_STATIC_ASSERT(std::numeric_limits<T>::is_integer, "'bitfieldRotateLeft' accepts only integer values");
 
+		typedef typename detail::make_unsigned<T>::type U;
 		int const BitSize = static_cast<int>(sizeof(T) * 8);
-		return (In >> static_cast<T>(Shift)) | (In << static_cast<T>(BitSize - Shift));
+		vec<L, U, Q> const Value(In);
+		return vec<L, T, Q>((Value >> static_cast<U>(Shift)) | (Value << static_cast<U>((BitSize - Shift) & (BitSize - 1))));
 	}
 
 	template<typename genIUType>
